@@ -5,6 +5,7 @@ import (
 	"os"
 	"runtime/debug"
 	"sort"
+	"time"
 )
 
 type checkFn func(r *Report, p *Program, tier string)
@@ -17,6 +18,12 @@ func runCheck(prop, tier string) int {
 		fmt.Fprintf(os.Stderr, "no check for %s\n", prop)
 		return 2
 	}
+	// a check that does not terminate is a broken check, not a pass
+	watchdog := time.AfterFunc(10*time.Minute, func() {
+		fmt.Printf("%s: [ENGINE] timeout: the analysis did not finish within 10 minutes\n", prop)
+		os.Exit(2)
+	})
+	defer watchdog.Stop()
 	r := NewReport(prop, tier)
 	code := 2
 	func() {
